@@ -55,10 +55,13 @@ Definition div_code (a : list cell) : cres (list cell) :=
   end.
 Definition swap_code (a : list cell) : cres (list cell) :=
   match a with [x; y] => Good [y; x] | _ => Fail (ERaised a) end.
-(* variadic body: receiver/first, second, packed slice -> one slice holding everything it saw *)
+(* variadic body: receiver/first, second, packed slice -> one slice holding everything it saw; when the
+   variadic parameter is a NIL slice (no surplus argument) the answer is tagged with the nil value's own
+   tag (the slice type, not the element type), so the two cases cannot be confused *)
 Definition vcode (a : list cell) : cres (list cell) :=
   match a with
   | [r; b; CPack et items] => Good [CPack et (r :: b :: items)]
+  | [r; b; CVal v] => match vval v with PNone => Good [CPack (vt v) [r; b]] | _ => Fail (ERaised a) end
   | _ => Fail (ERaised a)
   end.
 
@@ -235,24 +238,34 @@ Lemma nv_c19_call_4 :
   call (below ++ [i 1; i 2] ++ [u 3; u 4]) vfn 4 1 =
     callReady (below ++ [i 1; i 2] ++ [CPack TypeFloat64 [fl 3; fl 4]]) vfn 3 1 /\
   call (below ++ [i 1; i 2] ++ [u 3; u 4]) vfn 4 1 =
-    Good (below ++ [CPack TypeFloat64 [i 1; i 2; fl 3; fl 4]]) /\
-  (* no surplus argument: an empty slice *)
-  call (below ++ [i 1; i 2] ++ []) vfn 2 1 = Good (below ++ [CPack TypeFloat64 [i 1; i 2]]).
+    Good (below ++ [CPack TypeFloat64 [i 1; i 2; fl 3; fl 4]]).
 Proof.
   destruct c19_call as (_ & _ & _ & C4 & _).
   split; [reflexivity|]. split; [reflexivity|].
   assert (call (below ++ [i 1; i 2] ++ [u 3; u 4]) vfn 4 1 =
-          callReady (below ++ [i 1; i 2] ++ [CPack TypeFloat64 [fl 3; fl 4]]) vfn 3 1) as H
-    by exact (C4 below [i 1; i 2] [u 3; u 4] vfn 1 eq_refl eq_refl).
-  assert (call (below ++ [i 1; i 2] ++ []) vfn 2 1 =
-          callReady (below ++ [i 1; i 2] ++ [CPack TypeFloat64 []]) vfn 3 1) as H0
-    by exact (C4 below [i 1; i 2] [] vfn 1 eq_refl eq_refl).
-  split; [exact H|]. split; [rewrite H; reflexivity | rewrite H0; reflexivity].
+          callReady (below ++ [i 1; i 2] ++ [CPack TypeFloat64 [fl 3; fl 4]]) vfn 3 1) as H.
+  { refine (C4 below [i 1; i 2] [u 3; u 4] vfn 1 eq_refl eq_refl _). cbn. lia. }
+  split; [exact H|]. rewrite H; reflexivity.
 Qed.
 
-(* conjunct 5 *)
-Lemma nv_c19_call_5 : call (below ++ [i 1]) vfn 1 1 = Fail (ERuntime 2).
-Proof. destruct c19_call as (_ & _ & _ & _ & C5). apply C5; [reflexivity | cbn; lia]. Qed.
+(* conjunct 5: the same function without surplus argument: the variadic parameter is the NIL []float64
+   (the body sees a value, not a packed slice: its answer carries the slice type tag) *)
+Lemma nv_c19_call_5 :
+  call (below ++ [i 1; i 2]) vfn 2 1 =
+    callReady (below ++ [i 1; i 2] ++ [CVal (mkValue (fn_sliceType TypeFloat64) (Zn 0) PNone)]) vfn 3 1 /\
+  call (below ++ [i 1; i 2]) vfn 2 1 = Good (below ++ [CPack (fn_sliceType TypeFloat64) [i 1; i 2]]) /\
+  call (below ++ [i 1; i 2]) vfn 2 1 <> Good (below ++ [CPack TypeFloat64 [i 1; i 2]]).
+Proof.
+  destruct c19_call as (_ & _ & _ & _ & C5 & _).
+  assert (call (below ++ [i 1; i 2]) vfn 2 1 =
+          callReady (below ++ [i 1; i 2] ++ [CVal (mkValue (fn_sliceType TypeFloat64) (Zn 0) PNone)]) vfn 3 1) as H
+    by exact (C5 below [i 1; i 2] vfn 1 eq_refl eq_refl).
+  split; [exact H|]. split; [rewrite H; reflexivity|]. rewrite H. vm_compute. discriminate.
+Qed.
+
+(* conjunct 6 *)
+Lemma nv_c19_call_6 : call (below ++ [i 1]) vfn 1 1 = Fail (ERuntime 2).
+Proof. destruct c19_call as (_ & _ & _ & _ & _ & C6). apply C6; [reflexivity | cbn; lia]. Qed.
 
 (* ------------------------------------------------------------------------------------------ *)
 (* c19_native_call                                                                              *)
@@ -413,16 +426,33 @@ Lemma nv_c19_method_23 :
   call (below ++ [i 2] ++ [u 3; u 4]) (newMethod obj vfn) 3 1 =
     Good (below ++ [CPack TypeFloat64 [obj; i 2; fl 3; fl 4]]).
 Proof.
-  destruct c19_method as (_ & M2 & M3).
+  destruct c19_method as (_ & M2 & M3 & _).
   assert (2 <= Args vfn) as HA by (cbn; lia).
   assert (call (below ++ [i 2] ++ [u 3; u 4]) (newMethod obj vfn) 3 1 =
           call (below ++ [obj] ++ [i 2] ++ [u 3; u 4]) vfn 4 1) as H2
     by exact (M2 obj vfn below [i 2] [u 3; u 4] 1 eq_refl HA eq_refl).
   assert (call (below ++ [i 2] ++ [u 3; u 4]) (newMethod obj vfn) 3 1 =
-          callReady (below ++ [obj] ++ [i 2] ++ [CPack TypeFloat64 [fl 3; fl 4]]) vfn 3 1) as H3
-    by exact (M3 obj vfn below [i 2] [u 3; u 4] 1 eq_refl HA eq_refl).
+          callReady (below ++ [obj] ++ [i 2] ++ [CPack TypeFloat64 [fl 3; fl 4]]) vfn 3 1) as H3.
+  { refine (M3 obj vfn below [i 2] [u 3; u 4] 1 eq_refl HA eq_refl _). cbn. lia. }
   split; [reflexivity|]. split; [exact HA|]. split; [reflexivity|].
   split; [exact H2|]. split; [exact H3|]. rewrite H3. reflexivity.
+Qed.
+
+(* conjuncts 2 and 4: the same method without surplus argument: the nil []float64, exactly as the
+   underlying function called with the receiver and the fixed argument *)
+Lemma nv_c19_method_24 :
+  call (below ++ [i 2] ++ []) (newMethod obj vfn) 1 1 = call (below ++ [obj] ++ [i 2] ++ []) vfn 2 1 /\
+  call (below ++ [i 2]) (newMethod obj vfn) 1 1 =
+    callReady (below ++ [obj] ++ [i 2] ++ [CVal (mkValue (fn_sliceType TypeFloat64) (Zn 0) PNone)]) vfn 3 1 /\
+  call (below ++ [i 2]) (newMethod obj vfn) 1 1 = Good (below ++ [CPack (fn_sliceType TypeFloat64) [obj; i 2]]).
+Proof.
+  destruct c19_method as (_ & M2 & _ & M4).
+  assert (2 <= Args vfn) as HA by (cbn; lia).
+  assert (call (below ++ [i 2]) (newMethod obj vfn) 1 1 =
+          callReady (below ++ [obj] ++ [i 2] ++ [CVal (mkValue (fn_sliceType TypeFloat64) (Zn 0) PNone)]) vfn 3 1) as H4
+    by exact (M4 obj vfn below [i 2] 1 eq_refl HA eq_refl).
+  split; [exact (M2 obj vfn below [i 2] [] 1 eq_refl HA eq_refl)|].
+  split; [exact H4|]. rewrite H4. reflexivity.
 Qed.
 
 (* also with a variadic NATIVE below the method (NewFunc 3 _ (NNV _)) *)
@@ -556,4 +586,6 @@ Print Assumptions nv_c19_error_4.
 Print Assumptions nv_c19_func_2.
 Print Assumptions nv_c19_method_23.
 Print Assumptions nv_c19_call_4.
+Print Assumptions nv_c19_call_5.
+Print Assumptions nv_c19_method_24.
 Print Assumptions nv_c19_error_4_firstn.
